@@ -390,6 +390,14 @@ def connected_pair(auth=True, **kw):
 
 
 def shutdown(*transports):
+    # teardown only: end the in-memory streams first so that reader threads wake up at once
+    # instead of after their 0.1 s poll
+    for t in transports:
+        try:
+            if isinstance(t.sock, net.Endpoint):
+                t.sock.close()
+        except Exception:
+            pass
     for t in transports:
         try:
             t.close()
